@@ -378,6 +378,8 @@ Expected(e) ==
 KnownDeviation(e) ==
   IF e.op \in {"Line", "LineSp"} /\ e.bad = "" /\ Ok(e)
      /\ LineAcceptRetruncated(e.r, e.a.moves, e.a.end, e.a.retr) THEN "D11"
+  ELSE IF e.op = "PointStore" /\ Ok(e)
+     /\ PointStoreWholeStep(e.r.lon, e.r.alt, e.r.toward, e.r.cut, e.r.ongrid) THEN "D11"
   ELSE ""
 
 \* ---- machine events (histories) -------------------------------------------
